@@ -485,6 +485,9 @@ func CheckLedgers(P *core.Program, R *core.Report, spec *LedgerSpec) {
 				}
 			}
 			R.Add(spec.Rule+"-helper", key, "declared effect matches body", P.Pos(fn.Pos()), bad == "", why+" — deltas: "+deltaList(deltas)+". "+bad)
+			for _, d := range deltas {
+				checkErrorGated(P, R, spec.Rule, key, ff, d, deltas, true)
+			}
 			continue
 		}
 		ff := P.Facts(fn)
@@ -565,6 +568,16 @@ func CheckLedgers(P *core.Program, R *core.Report, spec *LedgerSpec) {
 			construct := "control class " + fmt.Sprint(gi+1) + ": " + ledgerSet(g)
 			R.Add(spec.Rule+"-cancel", key, construct, P.Pos(P.InstrPos(g[0].Instr)), sum.IsZero(),
 				fmt.Sprintf("deltas on the same success paths must cancel in the invariant; deltas: %s; residue: %s", deltaList(g), sum.String()))
+		}
+		// error gating: a half applied by a call that can fail counts only where its error is nil
+		for _, r := range order {
+			g := groups[r]
+			if len(g) < 2 {
+				continue
+			}
+			for _, d := range g {
+				checkErrorGated(P, R, spec.Rule, key, ff, d, g, false)
+			}
 		}
 		// persistence of field deltas
 		for _, d := range live {
@@ -711,4 +724,64 @@ func sameFieldOfCopySource(ff *core.FuncFacts, addr ssa.Value, target *ssa.Field
 		}
 	}
 	return n == 1 && src != nil && src == sb
+}
+
+// checkErrorGated: d is applied by a call with a trailing error result.  On the paths where
+// that error is non-nil the half was not applied, so (a) no other delta of its control class
+// may be reached, and (b) if another delta of the class was applied before the call (or the
+// function is a declared helper whose callers account for its effect: always), no exit that
+// can report success may be reached.  See core/errgate.go.
+func checkErrorGated(P *core.Program, R *core.Report, rule, key string, ff *core.FuncFacts, d Delta, group []Delta, always bool) {
+	var others []ssa.Instruction
+	for _, o := range group {
+		if o.Instr != d.Instr {
+			others = append(others, o.Instr)
+		}
+	}
+	CheckCallErrorGated(P, R, rule+"-error-gated", key, ff, d.Instr, others, always, d.Desc+" ("+d.Ledger+")")
+}
+
+// CheckCallErrorGated is the general form: `half` is a call applying one half of a paired
+// update, `partners` the instructions applying the other halves in the same function.
+func CheckCallErrorGated(P *core.Program, R *core.Report, rule, key string, ff *core.FuncFacts, half ssa.Instruction, partners []ssa.Instruction, always bool, desc string) {
+	c, ok := half.(ssa.CallInstruction)
+	if !ok {
+		return
+	}
+	e, discarded := core.ErrValueOf(c)
+	if e == nil && !discarded {
+		return // the callee cannot fail
+	}
+	others := map[ssa.Instruction]bool{}
+	before := always
+	for _, o := range partners {
+		if o == nil || o == half {
+			continue
+		}
+		others[o] = true
+		if core.Dominates(o, half) {
+			before = true
+		}
+	}
+	if len(others) == 0 && !always {
+		return
+	}
+	if discarded {
+		e = nil
+	}
+	res := ff.ErrNonNilReaches(c, e, func(in ssa.Instruction) bool { return others[in] }, before)
+	construct := "error of " + desc
+	detail := "when this call fails its half of the paired update is not applied: the paths on which its error is non-nil must not apply the partner, nor report success after a partner was applied"
+	if res != nil {
+		what := "reaches the partner update at "
+		if res.Exit {
+			what = "reaches an exit that can report success at "
+		}
+		if discarded {
+			detail += "; the error result is discarded and the path " + what + P.Pos(P.InstrPos(res.Instr))
+		} else {
+			detail += "; with the error non-nil a path " + what + P.Pos(P.InstrPos(res.Instr))
+		}
+	}
+	R.Add(rule, key, construct, P.Pos(P.InstrPos(half)), res == nil, detail)
 }
